@@ -10,14 +10,17 @@ PROP = "C12"
 ENGINE = "save"
 LEAN_MODULES = ["RtoscModel.Props.C12"]
 THEOREMS = [
-    "Rtosc.Save.load_save_restores",
-    "Rtosc.Save.load_counts_lines",
-    "Rtosc.Save.saved_iff_differs",
-    "Rtosc.Save.untouched_saves_header_only",
-    "Rtosc.Save.rejects_bad_header",
-    "Rtosc.Save.rejects_other_app",
-    "Rtosc.Save.rejects_unparsable",
-    "Rtosc.Save.rejects_unmatched",
+    "Rtosc.C12.load_save_restores",
+    "Rtosc.C12.load_counts_lines",
+    "Rtosc.C12.saved_iff_differs",
+    "Rtosc.C12.saved_iff_differs_array",
+    "Rtosc.C12.saved_value",
+    "Rtosc.C12.untouched_saves_header_only",
+    "Rtosc.C12.rejects_bad_header",
+    "Rtosc.C12.rejects_other_app",
+    "Rtosc.C12.rejects_unparsable",
+    "Rtosc.C12.rejects_unmatched",
+    "Rtosc.C12.load_save_restores_text",
 ]
 VERIF = os.path.dirname(os.path.dirname(os.path.dirname(os.path.abspath(__file__))))
 # the application pool is fixed (seeded by constants): regenerate the C++ when the generator changes
@@ -174,7 +177,7 @@ def bad_ops(rng, app, hist, stats):
 
 def generate(rng, tier, stats):
     apps = SA.pool()
-    n = 900 if tier == "quick" else 25000
+    n = 4000 if tier == "quick" else 150000
     stats.update({"apps": len(apps), "params_per_app": [len(a.insts) for a in apps], "hist_len": {}, "wrong_type_msgs": 0,
                   "sl_ops": 0, "bad_ops": 0})
     for a in apps:
@@ -241,10 +244,7 @@ def expected_lines(app, O):
             arrays.setdefault(base, []).append((it.arr, cur, d, it))
             continue
         if cur != d:
-            v = cur
-            if it.kind == "O" and 0 <= cur[1] < len(it.f["opts"]):
-                v = ("S", it.f["opts"][cur[1]].encode())
-            exp[it.addr] = SA.vtok(v)
+            exp[it.addr] = SA.vtok(cur)           # option symbols are reported as their index
     for base, els in arrays.items():
         els.sort()
         last = -1
